@@ -8,6 +8,7 @@ package k8s
 
 import (
 	"fmt"
+	"net"
 	"strconv"
 	"strings"
 
@@ -423,6 +424,12 @@ func (np *NetworkPolicy) netpolErr(title, description string) error {
 }
 
 func (np *NetworkPolicy) parseNetpolCIDR(cidr string, except []string) (*netset.IPBlock, error) {
+	// the analysis handles IPv4 addresses only: an IPv6 CIDR would be read from its first four bytes
+	for _, c := range append([]string{cidr}, except...) {
+		if ip, _, err := net.ParseCIDR(c); err == nil && ip.To4() == nil {
+			return nil, np.netpolErr(netpolerrors.CidrErrTitle, "IPv6 CIDR "+c+" is not supported")
+		}
+	}
 	ipb, err := netset.IPBlockFromCidr(cidr)
 	if err != nil {
 		return nil, np.netpolErr(netpolerrors.CidrErrTitle, err.Error())
